@@ -102,6 +102,13 @@ func c15Scenarios() []*dscenario {
 	sc3 := baseScenario("IOS", "do-approve")
 	sc3.name = "IOS/submode"
 	l = append(l, sc3)
+	// the device already has the preparation settings: 'reload in 2' is
+	// answered with the confirm question at once (no "Save?")
+	sc4 := baseScenario("IOS", "drc")
+	sc4.name = "IOS/routes/no-save-question"
+	sc4.device, sc4.target.Main = sc1.device, sc1.target.Main
+	sc4.prepNoop = true
+	l = append(l, sc4)
 	return l
 }
 
@@ -379,7 +386,7 @@ func rearmSig(r *drun, p int, b sim.BannerSpec) string {
 func init() {
 	registerSharded("C15", c15Worker, func(tier string) core.Meta {
 		return core.Meta{ID: "C15", Level: "fault_enumeration",
-			Rule: "IOS simulator with reload scheduling, confirm dialogues, 'logging synchronous' prompts and a pending-reload flag; 3 change scripts (routes with a joined replace, ACL edit with a joined move, sub-mode block); (1) ordering invariant on the banner-free run and on every single-deviation run of C09's alphabet: every change line lies between a confirmed 'reload in' and 'reload cancel', 'write memory' only after the cancellation and only without a rejected command, no reload pending after success; (2) banners: kind {0:02:00, 0:01:00} x form {bare, followed by fresh prompt} x position {before the echo, after echo+output, inside the echo at every character offset} x every command sent inside the reload window; thorough: all ordered pairs of banners on different commands (inside: offsets 0, middle, end); oracle: same change lines in the same order as the banner-free run, exit 0, write memory confirmed, no reload pending, ordering invariant, and after a one-minute warning the next line sent is 'do reload in 2'; non-trivial = runs with a banner or a deviation",
+			Rule: "IOS simulator with reload scheduling, confirm dialogues, 'logging synchronous' prompts and a pending-reload flag; 4 scenarios (routes with a joined replace, ACL edit with a joined move, sub-mode block, routes on a device that answers the first reload command without the save question); (1) ordering invariant on the banner-free run and on every single-deviation run of C09's alphabet: every change line lies between a confirmed 'reload in' and 'reload cancel', 'write memory' only after the cancellation and only without a rejected command, no reload pending after success; (2) banners: kind {0:02:00, 0:01:00} x form {bare, followed by fresh prompt} x position {before the echo, after echo+output, inside the echo at every character offset} x every command sent inside the reload window; thorough: all ordered pairs of banners on different commands (inside: offsets 0, middle, end); oracle: same change lines in the same order as the banner-free run, exit 0, write memory confirmed, no reload pending, ordering invariant, and after a one-minute warning the next line sent is 'do reload in 2'; non-trivial = runs with a banner or a deviation",
 			Assumptions: []string{"banner forms as in the repository's ios_simul.t (three empty lines, BEL, three-line box); the prepareDevice block (logging/vty settings) precedes the reload bracket by design and is not counted as change commands"},
 			Bounds:      map[string]any{"quick": "single banners at every offset", "thorough": "ordered pairs"},
 		}
